@@ -193,6 +193,12 @@ func (b *builder) build1(v *Val) interface{} {
 		// valid-UTF-8 payload into an invalid one)
 		var a [3]byte
 		src := v.bytes(in)
+		if !utf8.Valid(v.S) {
+			// invalid UTF-8 anyway (byte alphabet): the first three bytes; decided
+			// on instantiation A so that both instantiations are cut alike
+			copy(a[:], src)
+			return a
+		}
 		n := 0
 		for n < len(src) {
 			_, sz := utf8.DecodeRune(src[n:])
